@@ -185,6 +185,11 @@ def _samples_inverse(rng, tier):
         n = int(rng.integers(1, 7))
         d = float(10 ** rng.uniform(-2, 4))
         w = 10 ** rng.uniform(np.log10(3e-3), np.log10(50), n)
+        # one element in the intermediate regime (mu = w sqrt(d/g) ~ 1, where the first guess is ~20 % off) next to
+        # much larger / smaller frequencies: the convergence test has to hold for that element on its own scale
+        w[0] = min(50.0, max(3e-3, rng.uniform(0.5, 2.0) * np.sqrt(9.81 / d)))
+        if n > 1:
+            w[1] = 50.0
         out.append(("", {"angular_frequency": w, "dep": d, "grav": 9.81}))
     return out
 
